@@ -242,6 +242,9 @@ bool QXmppRosterManager::handleStanza(const QDomElement &element)
         }
         break;
     }
+    case QXmppIq::Get:
+        // roster requests are not answered by clients: let the default error reply be sent
+        return false;
     default:
         break;
     }
